@@ -168,7 +168,7 @@ pub fn check(c: &Case, rec: &mut Rec) -> Result<(), String> {
     let mut opts = EmuOpts::new(machine);
     opts.default_rom = false;
     let mut e = mk_emu(&opts);
-    e.load_rom(MemRomSet { pages: roms.clone().into() }).map_err(|x| format!("load_rom: {:?}", x))?;
+    e.load_rom(MemRomSet { pages: roms.clone().into(), chunk: 0 }).map_err(|x| format!("load_rom: {:?}", x))?;
     let mut mem = MemModel::new(machine, roms);
     let latch = if machine == Machine::K128 { c.bank & 7 } else { 0 };
     if machine == Machine::K128 {
